@@ -340,6 +340,10 @@ def check(tier: str) -> Result:
     n_w = wiring.add_obligations(res, tree, "C05.R5", lambda ci: ci.module.name.endswith((".reward", ".done")) and ci.module.name.startswith("jumanji.environments."))
     from .common import borrow
     n_b = borrow(res, "c04", {"C04.R3b": "C05.R6"}, envs=["Connector", "SlidingTilePuzzle"], only_if=lambda ob: "mask forbids" in ob.detail)
+    # ---- R7: an illegal move that would leave the grid (or push something out of it) is recognised exactly: border
+    # tests are exact, decisive, and guard the cell that is read (rules/bounds_rules.py)
+    from . import bounds_rules
+    n_bd = bounds_rules.add_obligations(res, tree, "C05.R7", scope="all")
     res.analysed = {"mask_forbidden_action_ignored": n_b, "terminate_on_invalid": TERMINATE_ON_INVALID, "untouched_state": list(UNTOUCHED) + ["Cleaner"],
                     "ignore_invalid": list(IGNORE) + ["Game2048", "RobotWarehouse"], "sites": n_sites}
     res.assumptions = ["lax.cond / select / where pick their else-alternative when the guard is false",
